@@ -135,6 +135,159 @@ proof fn lemma_rule_step_sound(g: Seq<Rule>, m0: FsMap, m1: FsMap, key: String, 
     }
 }
 
+//@]
+
+//@[ C07 termination of the fixpoint loop: the entries only grow, inside a finite universe
+/// all right-hand-side symbols of the grammar, with repetitions
+spec fn all_syms(g: Seq<Rule>) -> Seq<Symbol>
+    decreases g.len()
+{
+    if g.len() == 0 { Seq::empty() } else { all_syms(g.drop_last()) + rule_rhs(g.last()) }
+}
+proof fn lemma_all_syms_has(g: Seq<Rule>, ri: int, i: int)
+    requires 0 <= ri < g.len(), 0 <= i < rule_rhs(g[ri]).len()
+    ensures all_syms(g).contains(rule_rhs(g[ri])[i])
+    decreases g.len()
+{
+    let pre = all_syms(g.drop_last());
+    if ri == g.len() - 1 {
+        assert(g.last() == g[ri]);
+        assert(all_syms(g)[pre.len() + i] == rule_rhs(g[ri])[i]);
+    } else {
+        assert(g.drop_last()[ri] == g[ri]);
+        lemma_all_syms_has(g.drop_last(), ri, i);
+        let k = choose|k: int| 0 <= k < pre.len() && pre[k] == rule_rhs(g[ri])[i];
+        assert(all_syms(g)[k] == pre[k]);
+    }
+}
+/// a terminal of FIRST_n(A) occurs in some right-hand side
+proof fn lemma_first_n_in_syms(g: Seq<Rule>, n: nat, a: Seq<char>, t: DollarlessTerminalName)
+    requires first_n(g, n, a, t)
+    ensures all_syms(g).contains(Symbol::Terminal(t))
+    decreases n
+{
+    let ri = choose|ri: int| 0 <= ri < g.len() && rule_lhs(#[trigger] g[ri]) == a && seq_first_n(g, (n - 1) as nat, rule_rhs(g[ri]), t);
+    let syms = rule_rhs(g[ri]);
+    let i = choose|i: int| 0 <= i < syms.len() && prefix_nullable_n(g, (n - 1) as nat, syms, i)
+        && ((#[trigger] syms[i]) == Symbol::Terminal(t) || (syms[i] is Nonterminal && first_n(g, (n - 1) as nat, sym_name(syms[i]), t)));
+    if syms[i] == Symbol::Terminal(t) { lemma_all_syms_has(g, ri, i); }
+    else { lemma_first_n_in_syms(g, (n - 1) as nat, sym_name(syms[i]), t); }
+}
+type FsVal = (Set<DollarlessTerminalName>, bool);
+spec fn cnt(f: FsVal) -> int { f.0.len() + (if f.1 { 1int } else { 0int }) }
+spec fn fs_le(a: FsVal, b: FsVal) -> bool { a.0.subset_of(b.0) && (a.1 ==> b.1) }
+proof fn lemma_le_cnt(a: FsVal, b: FsVal)
+    requires fs_le(a, b)
+    ensures cnt(a) <= cnt(b), !(a =~~= b) ==> cnt(a) < cnt(b)
+{
+    vstd::set_lib::lemma_len_subset(a.0, b.0);
+    if a.0.len() == b.0.len() { vstd::set_lib::lemma_subset_equality(a.0, b.0); }
+}
+/// a sound entry has at most as many terminals as the grammar has right-hand-side symbols
+proof fn lemma_sound_bounded(g: Seq<Rule>, m: FsMap, k: String)
+    requires fa_sound(g, fa_of(m)), m.contains_key(k)
+    ensures cnt(fs_view(m[k])) <= all_syms(g).len() + 1
+{
+    let ts = m[k].terminals@;
+    let f = |t: DollarlessTerminalName| Symbol::Terminal(t);
+    assert(vstd::relations::injective(f));
+    vstd::set_lib::lemma_map_size(ts, ts.map(f), f);
+    assert forall|x: Symbol| ts.map(f).contains(x) implies all_syms(g).to_set().contains(x) by {
+        let t = choose|t: DollarlessTerminalName| ts.contains(t) && f(t) == x;
+        assert((fa_of(m).fst)(k@, t));
+        let n = choose|n: nat| first_n(g, n, k@, t);
+        lemma_first_n_in_syms(g, n, k@, t);
+    }
+    vstd::set_lib::lemma_len_subset(ts.map(f), all_syms(g).to_set());
+    all_syms(g).lemma_cardinality_of_set();
+}
+/// the measure: how much room is left, summed over the keys
+spec fn msum(keys: Seq<String>, v: Map<String, FsVal>, b: int) -> int
+    decreases keys.len()
+{
+    if keys.len() == 0 { 0 } else { msum(keys.drop_last(), v, b) + (b + 1 - cnt(v[keys.last()])) }
+}
+proof fn lemma_msum_nonneg(keys: Seq<String>, v: Map<String, FsVal>, b: int)
+    requires forall|i: int| 0 <= i < keys.len() ==> cnt(v[#[trigger] keys[i]]) <= b + 1
+    ensures msum(keys, v, b) >= 0
+    decreases keys.len()
+{
+    if keys.len() > 0 {
+        assert forall|i: int| 0 <= i < keys.drop_last().len() implies cnt(v[#[trigger] keys.drop_last()[i]]) <= b + 1 by { assert(keys.drop_last()[i] == keys[i]); }
+        lemma_msum_nonneg(keys.drop_last(), v, b);
+        assert(keys.last() == keys[keys.len() - 1]);
+    }
+}
+proof fn lemma_msum_mono(keys: Seq<String>, v0: Map<String, FsVal>, v1: Map<String, FsVal>, b: int)
+    requires forall|i: int| 0 <= i < keys.len() ==> cnt(v0[#[trigger] keys[i]]) <= cnt(v1[keys[i]])
+    ensures msum(keys, v1, b) <= msum(keys, v0, b),
+        (exists|i: int| 0 <= i < keys.len() && cnt(v0[#[trigger] keys[i]]) < cnt(v1[keys[i]])) ==> msum(keys, v1, b) < msum(keys, v0, b)
+    decreases keys.len()
+{
+    if keys.len() > 0 {
+        let pre = keys.drop_last();
+        let n1 = keys.len() - 1;
+        assert(keys.last() == keys[n1]);
+        assert forall|i: int| 0 <= i < pre.len() implies cnt(v0[#[trigger] pre[i]]) <= cnt(v1[pre[i]]) by { assert(pre[i] == keys[i]); }
+        lemma_msum_mono(pre, v0, v1, b);
+        if exists|i: int| 0 <= i < keys.len() && cnt(v0[#[trigger] keys[i]]) < cnt(v1[keys[i]]) {
+            let i = choose|i: int| 0 <= i < keys.len() && cnt(v0[#[trigger] keys[i]]) < cnt(v1[keys[i]]);
+            if i < n1 { assert(pre[i] == keys[i]); }
+        }
+    }
+}
+/// entries only grew from m0 to m1
+spec fn grew(m0: FsMap, m1: FsMap) -> bool {
+    m1.dom() == m0.dom() && forall|k: String| #[trigger] m0.contains_key(k) ==> fs_le(fs_view(m0[k]), fs_view(m1[k]))
+}
+/// some entry is strictly bigger in m1
+spec fn grew_strictly(m0: FsMap, m1: FsMap) -> bool {
+    exists|k: String| #[trigger] m0.contains_key(k) && cnt(fs_view(m0[k])) < cnt(fs_view(m1[k]))
+}
+proof fn lemma_rule_step_grew(m0: FsMap, m1: FsMap, key: String, syms: Seq<Symbol>)
+    requires rule_step(m0, m1, key, syms)
+    ensures grew(m0, m1), !(mv(m1) =~~= mv(m0)) ==> cnt(fs_view(m0[key])) < cnt(fs_view(m1[key]))
+{
+    lemma_mv_change(m0, m1, key);
+    assert(fs_le(fs_view(m0[key]), fs_view(m1[key])));
+    lemma_le_cnt(fs_view(m0[key]), fs_view(m1[key]));
+}
+proof fn lemma_grew_trans(m0: FsMap, m1: FsMap, m2: FsMap)
+    requires grew(m0, m1), grew(m1, m2)
+    ensures grew(m0, m2), grew_strictly(m0, m1) ==> grew_strictly(m0, m2), grew_strictly(m1, m2) ==> grew_strictly(m0, m2)
+{
+    assert forall|k: String| #[trigger] m0.contains_key(k) implies fs_le(fs_view(m0[k]), fs_view(m2[k])) by { assert(m1.contains_key(k)); }
+    if grew_strictly(m0, m1) {
+        let k = choose|k: String| #[trigger] m0.contains_key(k) && cnt(fs_view(m0[k])) < cnt(fs_view(m1[k]));
+        assert(m1.contains_key(k)); lemma_le_cnt(fs_view(m1[k]), fs_view(m2[k]));
+    }
+    if grew_strictly(m1, m2) {
+        let k = choose|k: String| #[trigger] m1.contains_key(k) && cnt(fs_view(m1[k])) < cnt(fs_view(m2[k]));
+        assert(m0.contains_key(k)); lemma_le_cnt(fs_view(m0[k]), fs_view(m1[k]));
+    }
+}
+/// the measure of the loop in get_first_sets decreases over one changing pass
+proof fn lemma_pass_decreases(g: Seq<Rule>, keys: Seq<String>, m0: FsMap, m1: FsMap)
+    requires grew(m0, m1), grew_strictly(m0, m1), keys.to_set() == m0.dom(), fa_sound(g, fa_of(m1)),
+    ensures 0 <= msum(keys, mv(m1), all_syms(g).len() as int) < msum(keys, mv(m0), all_syms(g).len() as int)
+{
+    let b = all_syms(g).len() as int;
+    assert forall|i: int| 0 <= i < keys.len() implies cnt(mv(m0)[#[trigger] keys[i]]) <= cnt(mv(m1)[keys[i]]) && cnt(mv(m1)[keys[i]]) <= b + 1 by {
+        assert(keys.to_set().contains(keys[i]));
+        assert(m0.contains_key(keys[i]) && m1.contains_key(keys[i]));
+        lemma_le_cnt(fs_view(m0[keys[i]]), fs_view(m1[keys[i]]));
+        lemma_sound_bounded(g, m1, keys[i]);
+    }
+    let k = choose|k: String| #[trigger] m0.contains_key(k) && cnt(fs_view(m0[k])) < cnt(fs_view(m1[k]));
+    assert(keys.to_set().contains(k));
+    let i0 = choose|i: int| 0 <= i < keys.len() && keys[i] == k;
+    assert(cnt(mv(m0)[keys[i0]]) < cnt(mv(m1)[keys[i0]]));
+    lemma_msum_mono(keys, mv(m0), mv(m1), b);
+    lemma_msum_nonneg(keys, mv(m1), b);
+}
+//@]
+
+//@[ C17 ghost (continued)
 /// abstract value of the whole map
 spec fn mv(m: FsMap) -> Map<String, (Set<DollarlessTerminalName>, bool)> { m.map_values(|f: FirstSet| fs_view(f)) }
 
@@ -185,25 +338,32 @@ struct FirstSetMapBuilder<'a> {
 }
 
 impl FirstSetMapBuilder<'_> {
-    //@[ termination of the fixpoint loop is NOT proved (listed under C07 not_covered)
-    #[verifier::exec_allows_no_decreases_clause]
-    //@]
     fn get_first_sets(self) -> /*@[*/(r: /*@]*/HashMap<String, FirstSet>/*@[*/)/*@]*/
         //@[ C17 C04 C07 FirstSetMapBuilder::get_first_sets: iterate until a whole pass changes nothing
         ensures fs_wf(r@), fs_covers(r@, self.rules@), is_first_map(r@, self.rules@),
         //@]
     {
         let mut out = self.get_a_map_of_each_nonterminal_to_the_empty_set();
+        //@[ proof
+        let ghost keys = out@.dom().to_seq();
+        let ghost dom0 = out@.dom();
+        proof { dom0.lemma_to_seq_to_set_id(); }
+        //@]
 
         loop
-            //@[ C17 loop invariant: the map never claims more than the least fixpoint
+            //@[ C17 C07 loop invariant: the map never claims more than the least fixpoint; the measure (room left in the entries) decreases with every changing pass
             invariant fs_wf(out@), fs_covers(out@, self.rules@), fa_sound(self.rules@, fa_of(out@)),
+                out@.dom() == dom0, keys.to_set() == dom0,
+            decreases msum(keys, mv(out@), all_syms(self.rules@).len() as int),
             //@]
         {
             //@[ proof
             let ghost m0 = out@;
             //@]
             let DidChange(changed) = self.expand(&mut out);
+            //@[ proof
+            proof { if changed { lemma_pass_decreases(self.rules@, keys, m0, out@); } }
+            //@]
             if !changed {
                 //@[ proof
                 proof {
@@ -351,6 +511,7 @@ impl FirstSetMapBuilder<'_> {
         ensures fs_wf(final(out)@), fs_covers(final(out)@, self.rules@),
             fa_sound(self.rules@, fa_of(old(out)@)) ==> fa_sound(self.rules@, fa_of(final(out)@)),
             !r.0 ==> mv(final(out)@) =~~= mv(old(out)@) && fa_closed(self.rules@, fa_of(old(out)@)),
+            grew(old(out)@, final(out)@), r.0 ==> grew_strictly(old(out)@, final(out)@),
         //@]
     {
         let mut changed = DidChange(false);
@@ -367,6 +528,7 @@ impl FirstSetMapBuilder<'_> {
                 fa_sound(g, fa_of(m_init)) ==> fa_sound(g, fa_of(out@)),
                 !changed.0 ==> mv(out@) =~~= mv(m_init)
                     && forall|ri: int| 0 <= ri < __vx_it.index@ ==> #[trigger] rule_closed(fa_of(m_init), g[ri]),
+                grew(m_init, out@), changed.0 ==> grew_strictly(m_init, out@),
             //@]
         {
             //@[ proof
@@ -379,6 +541,9 @@ impl FirstSetMapBuilder<'_> {
             proof {
                 let key = choose|key: String| #![trigger m0.contains_key(key)] m0.contains_key(key) && key@ == rule_lhs(*rule) && rule_step(m0, out@, key, rule_rhs(*rule));
                 lemma_rule_step_sound(g, m0, out@, key, ri);
+                lemma_rule_step_grew(m0, out@, key, rule_rhs(*rule));
+                if !(mv(out@) =~~= mv(m0)) { assert(grew_strictly(m0, out@)); }
+                lemma_grew_trans(m_init, m0, out@);
                 if !changed.0 {
                     lemma_rule_step_closed(m0, out@, key, g[ri]);
                     lemma_mv_eq_fa_eq(m0, m_init);
